@@ -15,7 +15,7 @@ LEVEL = "exploration"
 DESIGN_REF = "DESIGN.md §3 C18"
 RULE = (
     "Histories of constructions (arbitrary positional / keyword arguments) and clear_true_singleton(cls) / "
-    "clear_true_singleton() calls over a fresh family per case: P, Q(P) (subclass of a singleton class), R (instances falsy via __len__) and T (keyword-only, falsy via __bool__); the harness keeps no reference to instances between calls.  "
+    "clear_true_singleton() calls over a fresh family per case: P, Q(P) (subclass of a singleton class), R (instances falsy via __len__), T (keyword-only, falsy via __bool__) and N (its __init__ constructs R: nested construction); the harness keeps no reference to instances between calls.  "
     "Bounded-exhaustive for all histories up to the stated length over {P,Q(P),R(falsy)} x 2 argument selections + targeted "
     "and global clears, Hypothesis up to 60 operations.  Oracle = dict model: construct => the model's instance if "
     "one is live (identity, __init__ not re-run, stored args are the first call's) else a new object of exactly that "
@@ -43,7 +43,7 @@ def budget(tier):
 
 
 def strategy(tier):
-    op = st.tuples(st.sampled_from(["new", "new", "new", "clear"]), st.integers(0, 5), st.integers(0, len(ARGSETS) - 1))
+    op = st.tuples(st.sampled_from(["new", "new", "new", "clear"]), st.integers(0, 6), st.integers(0, len(ARGSETS) - 1))
     return st.builds(lambda ops: {"ops": [list(o) for o in ops]}, st.lists(op, max_size=60))
 
 
@@ -98,8 +98,19 @@ def check_case(case):
         def __bool__(self):
             return False
 
-    CL = [P, Q, R, T]
-    names = "PQRT"
+    class N(metaclass=S.TrueSingleton):
+        """A singleton whose __init__ itself constructs another singleton class (nested construction)."""
+
+        def __init__(self, *a, **k):
+            ninit[0] += 1
+            self.serial = ninit[0]
+            self.args = (a, k)
+            inner = R()
+            self.inner_serial = inner.serial
+            del inner
+
+    CL = [P, Q, R, T, N]
+    names = "PQRTN"
     model = {}          # class -> (serial, args)
     cleared_since = {}
     nt_a = nt_b = False
@@ -108,23 +119,33 @@ def check_case(case):
         for step, (op, ci, ai) in enumerate(case["ops"]):
             where = f"step {step} {op} {ci} {ai}"
             if op == "new":
-                c = CL[ci % 4]
+                c = CL[ci % 5]
                 a, k = ARGSETS[ai]
                 if c is T:
                     k = {kk: vv for kk, vv in k.items() if kk == "k"}
                 n0 = ninit[0]
+                nested_new = (c is N and c not in model and R not in model)
                 try:
                     o = c(*a, **k)
                 except Exception as e:  # noqa
                     raise Violation("construct-raised", f"{where}: {e!r}")
+                if nested_new:
+                    # N.__init__ constructed R (no arguments) as a side effect: R is live from now on
+                    require(ninit[0] == n0 + 2, "init-count", f"{where}: nested construction ran __init__ {ninit[0] - n0} times, expected 2")
+                    model[R] = (o.inner_serial, ((), {}))
+                    n0 += 1
+                    classes.add("nested-construction")
+                elif c is N and c not in model:
+                    require(o.inner_serial == model[R][0], "second-instance-created", f"{where}: N.__init__ got another R (serial {o.inner_serial}) than the live one ({model[R][0]})")
+                    classes.add("nested-construction-hit")
                 if c in model:
                     require(getattr(o, "serial", None) == model[c][0] and type(o) is c, "second-instance-created",
-                            f"{where}: {names[ci % 4]} already has a live instance (serial {model[c][0]}), got serial {getattr(o, 'serial', None)} of class {type(o).__name__}")
+                            f"{where}: {names[ci % 5]} already has a live instance (serial {model[c][0]}), got serial {getattr(o, 'serial', None)} of class {type(o).__name__}")
                     require(ninit[0] == n0, "init-ran-again", where)
                     require(o.args == model[c][1], "stored-args-changed", f"{where}: args now {o.args}, first call's were {model[c][1]}")
                 else:
                     require(type(o) is c, "wrong-class-returned", f"{where}: got {type(o).__name__}")
-                    require(ninit[0] == n0 + 1 and o.serial == ninit[0], "init-count", f"{where}: __init__ ran {ninit[0] - n0} times / an old instance (serial {getattr(o, 'serial', None)}) was returned")
+                    require(ninit[0] == n0 + 1 and o.serial == (ninit[0] if not nested_new else ninit[0] - 1), "init-count", f"{where}: __init__ ran {ninit[0] - n0} times / an old instance (serial {getattr(o, 'serial', None)}) was returned")
                     exp_args = (tuple(a), dict(k)) if c is not T else (tuple(a), {"k": k["k"]} if k.get("k", 0) != 0 else {})
                     require(o.args == exp_args, "init-args", f"{where}: {o.args} vs {exp_args}")
                     model[c] = (o.serial, o.args)
@@ -138,14 +159,14 @@ def check_case(case):
                     nt_b = True
             else:
                 try:
-                    if ci in (4, 5):
+                    if ci in (4, 5) and op == "clear":
                         S.clear_true_singleton() if ci == 4 else S.clear_true_singleton(None)
                         for c in list(model):
                             cleared_since[c] = True
                         model = {}
                         classes.add("clear-all")
                     else:
-                        c = CL[ci % 4]
+                        c = CL[ci % 5]
                         if c not in model:
                             classes.add("clear-class-without-instance")
                         else:
